@@ -9,7 +9,7 @@ LEVEL_NOTE_COMMON = (
     "Trusted: Coq 8.16.1 kernel + vm_compute; the hand-written Gallina model (tied to /repo by the "
     "correspondence check that runs model and implementation on the same inputs, by data regenerated from "
     "the imported modules and - where named - by programs/methods regenerated from the source by the fail-closed "
-    "translators harness/robot_translate.py, harness/pytr.py, harness/exec_translate.py, harness/c15_translate.py, harness/c08_translate.py, harness/c12_translate.py and harness/c14_translate.py, whose reading of each Python statement form is trusted); "
+    "translators harness/robot_translate.py, harness/pytr.py, harness/exec_translate.py, harness/c15_translate.py, harness/c08_translate.py, harness/c09_translate.py, harness/c12_translate.py and harness/c14_translate.py, whose reading of each Python statement form is trusted); "
     "the Python harness; CPython/wpilib-sim/ntcore. No axioms of our own; "
     "Print Assumptions of every property theorem is checked on every run. ")
 
@@ -169,10 +169,12 @@ CLAIMED = {
         text="Theorems (Coq, all names, histories of python-side and NT-side writes/reads on any number of instances): documented key for the three owner kinds "
              "with the subtable before the attribute; a read returns the latest write to its key; instances bound under different owners never interfere (disjoint "
              "key sets, by a string lemma); at setup the default overwrites iff writeDefault or the topic had no value; topic type table total on the supported "
-             "grid (37 842 points by vm_compute) and None exactly on the unsupported cases. Tied by correspondence against real ntcore with an independent "
-             "publisher/subscriber.",
+             "grid (37 842 points by vm_compute) and None exactly on the unsupported cases; a read made from any place of a control-loop pass returns the "
+             "latest write. Tied to the source twice: tunable.__get__/__set__, the body of setup_tunables and the topic type tables are regenerated from "
+             "the current source on every run and proved equal to the model's functions (c09_translate, Tunable/SrcTunableProofs.v); and by "
+             "correspondence against real ntcore with an independent publisher/subscriber, incl. histories run inside a real MagicRobot's passes.",
         note="Closed under the global context. ntcore is modelled as a key-value map (type conflicts, network, unpublishing outside the model); empty struct arrays read back as the default inside pyntcore (recorded in notes_c09.md).",
-        technique="Coq proof (induction over histories, finite vm_compute grid) + correspondence against ntcore evaluated in Coq", design="6.6"),
+        technique="Coq proof (induction over histories, finite vm_compute grid) + descriptor code regenerated from the source and proved equal to the model (c09_translate) + correspondence against ntcore evaluated in Coq", design="6.6"),
     "C17": dict(
         text="Theorems (Coq over R, every admissible parameter set, instantiated for the three sensors): reading in [lo,hi] for every real voltage, antitone, "
              "equal to the power law inside the range above the floor, no exception, +-inf handled; simulation helper is the inverse (reading(volts d) = clamp d) "
